@@ -67,7 +67,7 @@ def inline(p):
         it["dm"] = ""
         it["ds"] = ""
         it["fs"] = ""
-        it["um"] = {"m": "no", "mname": "", "whole": False, "lib": 0, "ext": False, "fills": []}
+        it["um"] = {"m": "no", "mname": "", "mvar": "", "whole": False, "lib": 0, "ext": False, "fills": []}
         it["mslots"] = []
         it.update(over)
         return it
